@@ -1,9 +1,9 @@
 package rules
 
 import (
-	"os"
 	"go/token"
 	"go/types"
+	"os"
 	"reflect"
 	"sort"
 	"strings"
@@ -16,16 +16,16 @@ import (
 
 // C03 — every emitted message is well-formed JSON-RPC 2.0 / MCP.
 //
-//   R-version          every constructed request/response/error/notification value gets "2.0"
-//   R-code-class       error constructions are classified by the branch that controls them
-//                      (params assertion failed -> -32602, dispatch default -> -32601,
-//                      handler error -> -32603 carrying the error text, decode failure -> -32700)
-//   R-status-written   every path through each ServeHTTP (and what it calls synchronously) writes a status/body
-//   R-decode-answered  the failure edge of decoding a request/raw message is answered (HTTP error,
-//                      JSON-RPC error) before the handler returns
-//   R-array-shape      result fields whose MCP shape is "array" cannot be marshalled as null
-//   R-queue-answered  on queue-answering transports (legacy SSE) every path after the dispatch hands a frame to the session queue
-//   R-error-passthrough / R-fresh-message  handler errors and response objects reach the wire unaltered / unshared
+//	R-version          every constructed request/response/error/notification value gets "2.0"
+//	R-code-class       error constructions are classified by the branch that controls them
+//	                   (params assertion failed -> -32602, dispatch default -> -32601,
+//	                   handler error -> -32603 carrying the error text, decode failure -> -32700)
+//	R-status-written   every path through each ServeHTTP (and what it calls synchronously) writes a status/body
+//	R-decode-answered  the failure edge of decoding a request/raw message is answered (HTTP error,
+//	                   JSON-RPC error) before the handler returns
+//	R-array-shape      result fields whose MCP shape is "array" cannot be marshalled as null
+//	R-queue-answered  on queue-answering transports (legacy SSE) every path after the dispatch hands a frame to the session queue
+//	R-error-passthrough / R-fresh-message  handler errors and response objects reach the wire unaltered / unshared
 func init() { Registry["C03"] = checkC03 }
 
 var msgTypes = []string{"JSONRPCRequest", "JSONRPCResponse", "JSONRPCError", "JSONRPCNotification"}
@@ -818,10 +818,10 @@ const (
 )
 
 type answerAnalysis struct {
-	c       *Ctx
-	sum     map[*ssa.Function]int
-	blocked map[*ssa.BasicBlock]int // checked exceptions: CFG edges (block -> successor index) known to be infeasible
-	boolMode bool                   // while summarising a bool-returning helper: `return …, true` delegates to the caller
+	c        *Ctx
+	sum      map[*ssa.Function]int
+	blocked  map[*ssa.BasicBlock]int // checked exceptions: CFG edges (block -> successor index) known to be infeasible
+	boolMode bool                    // while summarising a bool-returning helper: `return …, true` delegates to the caller
 }
 
 func returnsBool(fn *ssa.Function) bool {
